@@ -327,7 +327,19 @@ fn oracle_c04rt(s: &Sentence, fails: &mut Vec<(String, String)>) {
 }
 
 pub fn run_sent(ops: &str, oracle: &str, fails: &mut Vec<(String, String)>) -> String {
-    let mut s: Sentence<'static, 'static> = Sentence::default();
+    run_hist(&[], &[], ops, oracle, fails)
+}
+
+/// `H cfg preds ops`: the same histories with predictors available (`pred:<k>`, `fill`, `spec:<k>`)
+pub fn run_hist<'p>(
+    preds: &'p [Option<vaporetto::Predictor>],
+    models: &[crate::model::AbsModel],
+    ops: &str,
+    oracle: &str,
+    fails: &mut Vec<(String, String)>,
+) -> String {
+    let mut s: Sentence<'static, 'p> = Sentence::default();
+    let mut last_pred: Option<usize> = None;
     let mut out: Vec<String> = vec![];
     let c05 = oracle == "c05";
     let default_obs = if c05 { obs(&Sentence::default()) } else { String::new() };
@@ -412,6 +424,26 @@ pub fn run_sent(ops: &str, oracle: &str, fails: &mut Vec<(String, String)>) -> S
                     }
                 }
             }
+            ["pred", k] => {
+                let Ok(k) = k.parse::<usize>() else { return "bad-op".into() };
+                let Some(Some(p)) = preds.get(k) else { return "bad-op".into() };
+                match catch(|| p.predict(&mut s)) {
+                    Ok(()) => {
+                        last_pred = Some(k);
+                        "ok".into()
+                    }
+                    Err(_) => "panic".into(),
+                }
+            }
+            ["fill"] => match catch(|| s.fill_tags()) {
+                Ok(()) => "ok".into(),
+                Err(_) => "panic".into(),
+            },
+            ["spec", k] => {
+                let Ok(k) = k.parse::<usize>() else { return "bad-op".into() };
+                let Some(m) = models.get(k) else { return "bad-op".into() };
+                format!("Z{}", m.spec_scores(s.as_raw_text()).iter().map(|x| x.to_string()).collect::<Vec<_>>().join("."))
+            }
             ["reset", k] => {
                 let Ok(k) = k.parse::<usize>() else { return "bad-op".into() };
                 match catch(|| s.reset_tags(k)) {
@@ -467,6 +499,11 @@ pub fn run_sent(ops: &str, oracle: &str, fails: &mut Vec<(String, String)>) -> S
         out.push(r);
     }
     match oracle {
+        "c01" => {
+            if let Some(k) = last_pred {
+                crate::pred::oracle_c01(&s, &models[k], fails);
+            }
+        }
         "c02" => oracle_c02(&s, fails),
         "c03rt" => oracle_c03rt(&s, fails),
         "c03idem" => {
